@@ -65,6 +65,33 @@ Theorem C09_loop_not_stuck : forall s q l, get_loop q (loops s) = Some l ->
   end.
 Proof. exact loop_not_stuck. Qed.
 
+(* a consumer whose pause() / unpause() are round trips (RabbitMQ's basic.qos): pause() on the wire changes only the consumer's
+   flag; when it returns the loop queues up if the limiter is still locked and takes the slot at once if one has freed *)
+Theorem C09_pause_start_keeps_going : forall s q m p s',
+  get_loop q (loops s) = Some (mkLoop q (LGot m) p) -> step_ev s (EvPauseStart q) = Some s' ->
+  get_loop q (loops s') = Some (mkLoop q (LGot m) true) /\ value s' = value s /\ waiters s' = waiters s /\
+  (forall s2, get_loop q (loops s2) = Some (mkLoop q (LGot m) true) ->
+     step_ev s2 (EvAcquireFast q) <> None \/ step_ev s2 (EvPause q) <> None).
+Proof. exact pause_start_keeps_going. Qed.
+
+(* ... the loop that never waited un-pauses its consumer before it spawns: the step is enabled, and there is no other way back
+   to consumption - a paused consumer is never delivered from *)
+Theorem C09_unpause_hold_enabled : forall s q m,
+  get_loop q (loops s) = Some (mkLoop q (LHold m) true) ->
+  exists s', step_ev s (EvUnpauseHold q) = Some s' /\ get_loop q (loops s') = Some (mkLoop q (LHold m) false) /\ value s' = value s.
+Proof. exact unpause_hold_enabled. Qed.
+
+Theorem C09_paused_consumer_never_delivers : forall s q st m,
+  get_loop q (loops s) = Some (mkLoop q st true) -> step_ev s (EvDeliver q m) = None.
+Proof. exact paused_consumer_never_delivers. Qed.
+
+Theorem C09_suspending_pause_example :
+  exists s, run_ev (init 1 None [1])
+              [EvEnqueue 1 10; EvEnqueue 1 11; EvDeliver 1 10; EvAcquireFast 1; EvSpawn 1; EvDeliver 1 11; EvPauseStart 1;
+               EvTaskDone 10; EvAcquireFast 1; EvUnpauseHold 1; EvSpawn 1; EvTaskDone 11] = Some s
+            /\ started s = 2 /\ processed s = 2 /\ value s = 1 /\ get_loop 1 (loops s) = Some (mkLoop 1 LIdle false).
+Proof. exact suspending_pause_example. Qed.
+
 Print Assumptions C09_limiter_inv.
 Print Assumptions C09_tasks_le_limit.
 Print Assumptions C09_task_end_releases.
@@ -74,3 +101,7 @@ Print Assumptions C09_no_lost_wakeup.
 Print Assumptions C09_unpause_passes_spare_slot.
 Print Assumptions C09_wake_grants_first_waiter.
 Print Assumptions C09_loop_not_stuck.
+Print Assumptions C09_pause_start_keeps_going.
+Print Assumptions C09_unpause_hold_enabled.
+Print Assumptions C09_paused_consumer_never_delivers.
+Print Assumptions C09_suspending_pause_example.
